@@ -140,6 +140,48 @@ Proof.
 Qed.
 
 (* ------------------------------------------------------------------ *)
+(* linear-time forms of the slice methods, equal to the model for all   *)
+(* inputs; the harness glue evaluates these on the 65536-element cases  *)
+(* (fold_left with append-at-the-end is quadratic under vm_compute)     *)
+(* ------------------------------------------------------------------ *)
+Definition dst_indep {A} (ap : list N -> A -> list N) : Prop := forall dst v, ap dst v = dst ++ ap [] v.
+
+Lemma fold_left_indep {A} (ap : list N -> A -> list N) : dst_indep ap ->
+  forall vals dst, fold_left ap vals dst = dst ++ flat_map (ap []) vals.
+Proof.
+  intros H. induction vals as [|v vals IH]; intros dst; cbn [fold_left flat_map].
+  - rewrite app_nil_r. reflexivity.
+  - rewrite IH, (H dst v), <- app_assoc. reflexivity.
+Qed.
+
+Definition cbor_slice_fast {A} (ap : list N -> A -> list N) (dst : list N) (vals : list A) : list N :=
+  if len vals =? 0 then cbor_AppendArrayEnd (cbor_AppendArrayStart dst)
+  else append_head dst majorTypeArray (len vals) ++ flat_map (ap []) vals.
+
+Lemma cbor_slice_fast_eq {A} (ap : list N -> A -> list N) : dst_indep ap ->
+  forall dst vals, cbor_slice ap dst vals = cbor_slice_fast ap dst vals.
+Proof.
+  intros H dst vals. unfold cbor_slice, cbor_slice_fast. destruct (len vals =? 0); [reflexivity|].
+  apply fold_left_indep; auto.
+Qed.
+
+Lemma bool_indep : dst_indep cbor_AppendBool.
+Proof. intros dst v. reflexivity. Qed.
+
+Lemma string_indep : dst_indep cbor_AppendString.
+Proof. intros dst s. unfold cbor_AppendString. rewrite append_head_dst, <- app_assoc. reflexivity. Qed.
+
+Definition cbor_AppendBools_fast := cbor_slice_fast cbor_AppendBool.
+Definition cbor_AppendStrings_fast (dst : list N) (vals : list (list N)) : list N :=
+  append_head dst majorTypeArray (len vals) ++ flat_map (cbor_AppendString []) vals.
+
+Theorem cbor_AppendBools_fast_eq dst vals : cbor_AppendBools dst vals = cbor_AppendBools_fast dst vals.
+Proof. apply cbor_slice_fast_eq. exact bool_indep. Qed.
+
+Theorem cbor_AppendStrings_fast_eq dst vals : cbor_AppendStrings dst vals = cbor_AppendStrings_fast dst vals.
+Proof. unfold cbor_AppendStrings, cbor_AppendStrings_fast. apply fold_left_indep. exact string_indep. Qed.
+
+(* ------------------------------------------------------------------ *)
 (* strings                                                             *)
 (* ------------------------------------------------------------------ *)
 Lemma emits_string s : bytes_ok s -> len s < 2 ^ 64 -> emits cbor_AppendString s (IText s).
